@@ -10,6 +10,7 @@ import (
 	"net"
 	"net/netip"
 	"reflect"
+	"slices"
 	"strconv"
 	"sync"
 	"time"
@@ -533,12 +534,26 @@ func (a *Agent) gatherCandidatesLocalUDPMux(ctx context.Context) error { //nolin
 
 	localAddresses := a.udpMux.GetListenAddresses()
 	existingConfigs := make(map[CandidateHostConfig]struct{})
+	networkTypes := configuredNetworkTypes(a.networkTypes)
 
 	for _, addr := range localAddresses {
 		udpAddr, ok := addr.(*net.UDPAddr)
 		if !ok {
 			return errInvalidAddress
 		}
+
+		// Only publish mux addresses of an enabled network type.
+		switch {
+		case udpAddr.IP.To4() != nil:
+			if !slices.Contains(networkTypes, NetworkTypeUDP4) {
+				continue
+			}
+		case len(udpAddr.IP) == net.IPv6len:
+			if !slices.Contains(networkTypes, NetworkTypeUDP6) {
+				continue
+			}
+		}
+
 		candidateIPs := []net.IP{udpAddr.IP}
 
 		if _, ok := a.udpMux.(*UDPMuxDefault); ok && !a.includeLoopback && udpAddr.IP.IsLoopback() {
